@@ -146,3 +146,12 @@ package mount
 //@   loop 0: invariant -1 <= rangeindex && rangeindex < len(old(b.Mounts)) && len(rt) <= rangeindex + 1 && sarr(rt) == sarr(old(b.Mounts)) && soff(rt) == soff(old(b.Mounts)) && cap(rt) == cap(old(b.Mounts)) && b.Mounts == old(b.Mounts)
 //@   loop 0: invariant forall j int :: rangeindex < j && j < len(old(b.Mounts)) ==> old(b.Mounts)[j].Source == old(b.Mounts[j].Source) && old(b.Mounts)[j].Target == old(b.Mounts[j].Target) && old(b.Mounts)[j].FsType == old(b.Mounts[j].FsType) && old(b.Mounts)[j].Flags == old(b.Mounts[j].Flags) && old(b.Mounts)[j].Data == old(b.Mounts[j].Data)
 //@   loop 0: invariant forall k int :: 0 <= k && k < len(rt) ==> exists j int :: k <= j && j <= rangeindex && rt[k].Source == old(b.Mounts[j].Source) && rt[k].Target == old(b.Mounts[j].Target) && rt[k].FsType == old(b.Mounts[j].FsType) && rt[k].Flags == old(b.Mounts[j].Flags) && rt[k].Data == old(b.Mounts[j].Data)
+// WithMounts appends copies: the builder's table is its own storage (a fresh array, or its own old one when
+// that had room) - never the caller's slice, so two builders fed from one base list cannot write into each other
+//@ func pkg/mount.(*Builder).WithMounts props C05
+//@   arith int
+//@   requires b != nil
+//@   assigns b.Mounts
+//@   ensures result == b && len(b.Mounts) == len(old(b.Mounts)) + len(m)
+//@   ensures mounts_kept()
+//@   ensures fresh(b.Mounts) || len(m) == 0 || (sarr(b.Mounts) == old(sarr(b.Mounts)) && cap(old(b.Mounts)) >= len(old(b.Mounts)) + len(m))
